@@ -412,10 +412,10 @@ class ConnRun:
             self.w.step_deliv.append([id_, kind_of_name(type(msg).__name__), msg])
             sc = state["script"]
             if sc == "unsub_self":
-                self.sub_unsubs.pop(id_)()
+                self._pop_unsub(id_)()
             elif sc == "unsub_other":
                 for other in [o for o in self.sub_unsubs if o != id_ and self.sub_kinds[o] == kind]:
-                    self.sub_unsubs.pop(other)()
+                    self._pop_unsub(other)()
             elif sc == "sub_new":
                 state["script"] = "none"
                 self._add_sub(id_ + 10, kind, "none", cls)
@@ -427,12 +427,22 @@ class ConnRun:
             self.sub_kinds = {}
         self.sub_kinds[id_] = kind
 
+    def _pop_unsub(self, id_):
+        u = self.sub_unsubs.pop(id_)
+        if not hasattr(self, "stale_unsubs"):
+            self.stale_unsubs = {}
+        self.stale_unsubs[id_] = u  # the function stays callable: calling it again later must change nothing
+        return u
+
     def ev_unsub(self, id_: int):
         def fn():
-            u = self.sub_unsubs.pop(id_, None)
+            if id_ in self.sub_unsubs:
+                self._pop_unsub(id_)()
+                return None
+            u = getattr(self, "stale_unsubs", {}).get(id_)
             if u is None:
                 return False
-            u()
+            u()  # a second call of an unsubscribe function that has done its work already
 
         self.inject("UserUnsub", {"id": id_}, fn)
 
@@ -906,3 +916,26 @@ def _two_address_schedule(rng: random.Random, cfg: dict, n_events: int, p_fault:
         sch += [("ev", "handshake", "ok"), ("idle",)]
     sch += [("ev", "chunk", [{"k": "hello", "major": 1, "name": "dev"}] + ([{"k": "connect", "invalid": False}] if cfg["login"] else [])), ("idle",), ("tick",), ("tick",)]
     return sch
+
+
+def c11_neighbours_family() -> list:
+    """Calls next to subscriptions on the same message types: a subscriber that comes and goes - including an
+    unsubscribe function called a second time after it has done its work - must not cost a pending call its
+    response handler, and a call that ends must not cost a subscriber its deliveries."""
+    out = []
+    for noise in (False, True):
+        cfg = dict(noise=noise, exp="none", login=False, K=20000)
+        for mode, resp in (("single", [{"k": "B"}]), ("list", [{"k": "A", "key": 1}, {"k": "done"}]), ("filter", [{"k": "A", "key": 1}])):
+            kind = "B" if mode == "single" else "A"
+            for g in ([], [("iter", 1)], [("idle",)]):
+                base = happy_connect(cfg)
+                # subscriber gone before the call; its unsubscribe function is called again while the call waits
+                out.append((cfg, base + [("ev", "sub", 1, kind, "none"), ("idle",), ("ev", "unsub", 1)] + g + [("ev", "call", "c1", mode, 1)] + g +
+                            [("ev", "unsub", 1)] + g + [("ev", "chunk", resp), ("idle",), ("ev", "chunk", resp), ("idle",), ("tick",)]))
+                # subscriber arrives while the call waits and outlives it
+                out.append((cfg, base + [("ev", "call", "c1", mode, 1)] + g + [("ev", "sub", 1, kind, "none")] + g + [("ev", "chunk", resp), ("idle",),
+                            ("ev", "chunk", resp), ("idle",), ("ev", "unsub", 1), ("ev", "chunk", resp), ("idle",), ("tick",)]))
+                # two calls on the same type, the first one cancelled / timed out while the second waits
+                out.append((cfg, base + [("ev", "call", "c1", mode, 1), ("ev", "call", "c2", mode, 1)] + g + [("ev", "cancel_call", "c1")] + g +
+                            [("ev", "chunk", resp), ("idle",), ("tick",)]))
+    return out
